@@ -777,12 +777,12 @@ fn judge(sc: &Scenario, o: &Outcome, probes: &mut Counters) -> (Option<Violation
                 }
                 if ci[x].arr.is_none() && ci[x].lost_t3.is_none() && !o.stuck_syn.contains(&src) && o.syn_src[x].is_none() {
                     // never seen on the link: delivered within the step of the call or at the start of the next
-                    ci[x].arr = Some((3 * s0, 3 * s0 + 2));
+                    ci[x].arr = Some((3 * s0 - 1, 3 * s0 + 2));
                 }
             }
             None => {
                 if dir_state(recs, c.host, ci[x].start_t3) == DirState::Healthy {
-                    ci[x].arr = Some((3 * s0, 3 * s0 + 2));
+                    ci[x].arr = Some((3 * s0 - 1, 3 * s0 + 2));
                 }
             }
         }
